@@ -6,7 +6,7 @@
 //! returned.  Templates use EVERY kind of placeholder (width / alignment / truncation / style on
 //! msg, prefix, custom and built-in keys; wide_msg; wide_bar; bar; spinner; numeric keys) and
 //! styles with their own tick strings / progress characters, with and without TABs.
-use indicatif::{ProgressBar, ProgressDrawTarget, ProgressFinish, ProgressState, ProgressStyle};
+use indicatif::{MultiProgress, ProgressBar, ProgressDrawTarget, ProgressFinish, ProgressState, ProgressStyle};
 use verif_harness::spy::{Spy, TOp};
 use verif_harness::*;
 
@@ -15,7 +15,7 @@ use verif_harness::*;
 /// C16_no_tab_refuted, reproduced by the corpus below).  Until the class
 /// `tab-in-tick-or-progress-chars` is registered as an open known finding (known_findings.json is
 /// not this property's file) the oracle only counts it.
-const REPORT_GLYPH_TAB_FINDING: bool = false;
+const REPORT_GLYPH_TAB_FINDING: bool = true;
 
 const KEYS: [&str; 4] = ["k0", "k1", "k2", "k3"];
 const TERM_W: u16 = 40;
@@ -654,10 +654,22 @@ struct Exec {
     build_panic: bool,
 }
 
-fn execute(ops: &[Op]) -> Exec {
+/// [multi]: the bar is the only member of a MultiProgress that draws to the recording terminal
+/// (same BarState / format_state code, the lines travel through MultiState::draw)
+fn execute(ops: &[Op], multi: bool) -> Exec {
     let mut ex = Exec::default();
     let spy = Spy::new(TERM_W, u16::MAX);
-    let mut pb = match catch(|| ProgressBar::with_draw_target(None, ProgressDrawTarget::term_like(Box::new(spy.clone())))) {
+    let mut _mp: Option<MultiProgress> = None;
+    let mut pb = match catch(|| {
+        if multi {
+            let mp = MultiProgress::with_draw_target(ProgressDrawTarget::term_like(Box::new(spy.clone())));
+            let pb = mp.add(ProgressBar::with_draw_target(None, ProgressDrawTarget::hidden()));
+            _mp = Some(mp);
+            pb
+        } else {
+            ProgressBar::with_draw_target(None, ProgressDrawTarget::term_like(Box::new(spy.clone())))
+        }
+    }) {
         Ok(pb) => Some(pb),
         Err(e) => {
             ex.panic = Some(format!("constructor panicked: {e}"));
@@ -1021,8 +1033,8 @@ fn collect_chars(ops: &[Op], ex: &Exec, nums: &[(u32, String)], acc: &mut std::c
     add("\0 ");
 }
 
-fn report(s: &mut Session, ops: &[Op], ex: &Exec, twin: Option<&Exec>, nums: &[(u32, String)]) {
-    let desc = format!("ops=[{}]", ops.iter().map(|o| o.desc()).collect::<Vec<_>>().join("; "));
+fn report(s: &mut Session, ops: &[Op], ex: &Exec, twin: Option<&Exec>, nums: &[(u32, String)], multi: bool) {
+    let desc = format!("{}ops=[{}]", if multi { "member of a MultiProgress; " } else { "" }, ops.iter().map(|o| o.desc()).collect::<Vec<_>>().join("; "));
     for c in &ex.counts {
         s.count(c);
     }
@@ -1080,28 +1092,29 @@ fn report(s: &mut Session, ops: &[Op], ex: &Exec, twin: Option<&Exec>, nums: &[(
     s.case(coq, desc, nontrivial);
 }
 
-fn run_case(s: &mut Session, ops: &[Op], nums: &[(u32, String)], tab_twin: char) {
+fn run_case(s: &mut Session, ops: &[Op], nums: &[(u32, String)], tab_twin: char, multi: bool) {
+    s.count(if multi { "target:member-of-a-MultiProgress" } else { "target:own-terminal" });
     if glyph_tab(ops) {
         let twin_ops = sanitise(ops, tab_twin);
-        let twin = execute(&twin_ops);
+        let twin = execute(&twin_ops, multi);
         if twin.build_panic {
             s.count("history-dropped:style-builder-rejected-its-argument");
             return;
         }
-        let ex = execute(ops);
+        let ex = execute(ops, multi);
         if ex.build_panic {
             s.count("history-dropped:style-builder-rejected-its-argument");
             return;
         }
-        report(s, &twin_ops, &twin, None, nums);
-        report(s, ops, &ex, Some(&twin), nums);
+        report(s, &twin_ops, &twin, None, nums, multi);
+        report(s, ops, &ex, Some(&twin), nums, multi);
     } else {
-        let ex = execute(ops);
+        let ex = execute(ops, multi);
         if ex.build_panic {
             s.count("history-dropped:style-builder-rejected-its-argument");
             return;
         }
-        report(s, ops, &ex, None, nums);
+        report(s, ops, &ex, None, nums, multi);
     }
 }
 
@@ -1242,6 +1255,15 @@ fn main() {
             Op::Println("x".into()),
             Op::AbandonWithMessage("\tback".into()),
         ],
+        // the wide element stays in force for the following template lines (`wide` is never reset,
+        // style.rs:242-262): a NUL that a text brings into a later line is replaced as well
+        vec![
+            style(&vec![], &[T::Ph(bare(Key::WideBar)), T::NewLine, lit("x"), T::Msg, T::NewLine, T::Prefix]),
+            Op::SetMessage("a\0\tb".into()),
+            Op::SetStyleDerived { tpl: vec![T::Ph(bare(Key::WideMsg)), lit("|"), T::NewLine, T::Prefix, lit("\t")], builder: false },
+            Op::SetPrefix("p\0\0".into()),
+            Op::SetTabWidth(2),
+        ],
         // C16_no_tab_refuted: a TAB inside a tick string reaches the bar line unexpanded
         vec![
             Op::SetStyleNew {
@@ -1264,7 +1286,10 @@ fn main() {
         ],
     ];
     for ops in &corpus {
-        run_case(&mut s, ops, &nums, tab_twin);
+        run_case(&mut s, ops, &nums, tab_twin, false);
+    }
+    for ops in &corpus {
+        run_case(&mut s, ops, &nums, tab_twin, true);
     }
     // ---------------------------------------------------------------- random
     let n = if a.thorough { 20_000 } else if a.extended { 16_000 } else { 2_000 };
@@ -1286,7 +1311,8 @@ fn main() {
         while ops.len() < len {
             ops.push(g.op(rich));
         }
-        run_case(&mut s, &ops, &nums, tab_twin);
+        let multi = g.r.chance(1, 6);
+        run_case(&mut s, &ops, &nums, tab_twin, multi);
     }
     s.finish();
 }
